@@ -182,15 +182,23 @@ pub fn compare_accepted(msg: &Message, bytes: &[u8], r: &RefMsg, sigp: &str, mod
                     format!("raw_attribute({:#06x}) found nothing although iteration shows [{}]", ty, show(&got)),
                 ))
             }
-            (None, Some(_)) => {
-                return Err(Fail::new(
-                    &sig("lookup"),
-                    format!("raw_attribute({:#06x}) returned an attribute that iteration does not show [{}]", ty, show(&got)),
-                ))
+            (None, Some(g)) => {
+                // C02 only demands that what is returned is the first such attribute encoded in
+                // the buffer; whether an attribute located after an integrity attribute may be
+                // returned at all is the exposure rule (C10, mode Exact)
+                let first_in_buffer = r.attrs.iter().find(|a| a.ty == ty);
+                let ok = mode == Exposure::Faithful && first_in_buffer.map_or(false, |a| *g.value == *a.value(bytes));
+                if !ok {
+                    return Err(Fail::new(
+                        &sig("lookup"),
+                        format!("raw_attribute({:#06x}) returned an attribute that iteration does not show [{}]", ty, show(&got)),
+                    ));
+                }
             }
         }
+        let hidden_in_buffer = mode == Exposure::Faithful && first.is_none() && r.attrs.iter().any(|a| a.ty == ty);
         ensure!(
-            has == first.is_some(),
+            has == first.is_some() || (has && hidden_in_buffer),
             &sig("lookup"),
             "has_attribute({:#06x}) = {} but iteration shows [{}]",
             ty,
